@@ -181,6 +181,7 @@ func checkC01(c *Ctx, r *Report) {
 	checkDrainTypestate(m, r)
 	// parked batches must not share memory with the live buffer (a later append would overwrite them
 	// before they are uploaded or restored)
+	checkS3ClientErrors(m, r, "C01.R2")
 	checkBufferFresh(m, r, "C01.R3")
 	checkPrependKeepsBoth(m, r, "C01.R3")
 
@@ -536,5 +537,86 @@ func checkPrependKeepsBoth(m *Module, r *Report, rule string) {
 		r.ok(rule, key, m.Pos(stores[0].Pos()), "")
 	} else {
 		r.viol(rule, key, m.Pos(stores[0].Pos()), why+" — batches appended by other producers between the drain and the failed upload would be lost although their producers are acknowledged by the next flush")
+	}
+}
+
+// checkS3ClientErrors: the production S3 client reports success only for an upload that succeeded.
+// UploadSegment/UploadIndex hand back putObject's result; putObject returns nil only on a path where
+// the most recent PutObject call's error was tested nil (a later PutObject invalidates the earlier
+// test), so a failed retry cannot be reported as success.
+func checkS3ClientErrors(m *Module, r *Report, rule string) {
+	for _, name := range []string{"(*awsS3Client).UploadSegment", "(*awsS3Client).UploadIndex"} {
+		fn := m.Func(pkgStorage, name)
+		key := name + " returns the result of the object upload"
+		if fn == nil {
+			r.unresolved(rule, key, "not found")
+			continue
+		}
+		r.fn(fn)
+		bad := ""
+		var put *ssa.Call
+		for _, c := range findCalls(fn, pkgStorage+".(*awsS3Client).putObject", "("+"*"+pkgStorage+".awsS3Client).putObject") {
+			put, _ = c.(*ssa.Call)
+		}
+		if put == nil {
+			for _, c := range callsIn(fn) {
+				if strings.HasSuffix(calleeName(c.Common()), ".putObject") {
+					put, _ = c.(*ssa.Call)
+				}
+			}
+		}
+		if put == nil {
+			bad = "no call of putObject"
+		} else {
+			for _, b := range fn.Blocks {
+				if ret, ok := b.Instrs[len(b.Instrs)-1].(*ssa.Return); ok {
+					if strip(ret.Results[0]) != ssa.Value(put) && isNilConst(ret.Results[0]) {
+						bad = "returns nil without handing back the upload's error at " + m.Pos(ret.Pos())
+					}
+				}
+			}
+		}
+		if bad == "" {
+			r.ok(rule, key, m.Pos(fn.Pos()), "")
+		} else {
+			r.viol(rule, key, m.Pos(fn.Pos()), bad)
+		}
+	}
+	fn := m.Func(pkgStorage, "(*awsS3Client).putObject")
+	key := "(*awsS3Client).putObject returns nil only after its most recent PutObject call succeeded"
+	if fn == nil {
+		r.unresolved(rule, key, "not found")
+		return
+	}
+	r.fn(fn)
+	g := Guard{cl(atomErrNil("~S3API).PutObject", "~.PutObject")).re("~S3API).PutObject", "~.PutObject")}
+	n := 0
+	okAll := true
+	why := ""
+	for _, b := range fn.Blocks {
+		ret, ok := b.Instrs[len(b.Instrs)-1].(*ssa.Return)
+		if !ok {
+			continue
+		}
+		// which incoming values can be nil
+		for _, o := range origins(ret.Results[0]) {
+			if !isNilConst(o) {
+				continue
+			}
+			n++
+			res := checkGuarded(m, fn, ret, g)
+			if !res.OK {
+				okAll = false
+				why = "success is reported at " + m.Pos(ret.Pos()) + " on a path where the last PutObject call was not seen to succeed: " + res.String()
+			}
+		}
+	}
+	switch {
+	case n == 0:
+		r.unresolved(rule, key, "no nil return found")
+	case okAll:
+		r.ok(rule, key, m.Pos(fn.Pos()), fmt.Sprintf("%d success return(s)", n))
+	default:
+		r.viol(rule, key, m.Pos(fn.Pos()), why)
 	}
 }
